@@ -134,7 +134,10 @@ class EventDispatcher:
         # its callbacks run, so that an exception raised by a callback
         # (eg. Quit, SwitchWorld) cannot cause a second delivery: the
         # events that were not reached stay queued, in order.
-        while self._event_queue:
+        # A callback may disable dispatching again: stop releasing then
+        # (dispatch would only push the event back, forever), the rest
+        # is released the next time dispatching is enabled.
+        while self._event_queue and self._dispatch_enabled:
             event_name, args, kwargs = self._event_queue.pop(0)
             self.dispatch(event_name, *args, **kwargs)
 
